@@ -123,6 +123,44 @@ theorem activate_lengths (hl : HashLaws h) (serverMode : Bool) (d : Dir) (ci : C
   cases serverMode <;> cases d <;>
     simp [activate, letters, computeKey_length h K H sid _ hl]
 
+/-! ## independently negotiated directions (local ≠ remote algorithms) -/
+
+/-- the algorithm of the direction being activated -/
+def dirCipher (d : Dir) (n : Negotiated) : CipherInfo :=
+  match d with | .inbound => n.remoteCipher | .outbound => n.localCipher
+
+def dirMac (d : Dir) (n : Negotiated) : MacInfo :=
+  match d with | .inbound => n.remoteMac | .outbound => n.localMac
+
+/-- Per direction, with that direction's negotiated algorithms — also when the other direction
+    negotiated a cipher / MAC with different key, IV or digest sizes: RFC letters, RFC derivation,
+    and exactly the sizes the direction's own cipher and MAC need. -/
+theorem activateDir_rfc (hl : HashLaws h) (serverMode : Bool) (d : Dir) (n : Negotiated) :
+    let k := activateDir h K H sid serverMode d n
+    k.iv = rfcKey h K H sid (if c2s serverMode d then 65 else 66) (dirCipher d n).ivSize ∧
+    k.key = rfcKey h K H sid (if c2s serverMode d then 67 else 68) (dirCipher d n).keySize ∧
+    k.macKey = rfcKey h K H sid (if c2s serverMode d then 69 else 70) (dirMac d n).digestSize ∧
+    k.iv.length = (dirCipher d n).ivSize ∧ k.key.length = (dirCipher d n).keySize ∧
+    k.macKey.length = (dirMac d n).digestSize ∧ k.blockSizeArg = (dirCipher d n).blockSize := by
+  cases d
+  · have h1 := activate_rfc h K H sid hl serverMode .inbound n.remoteCipher n.remoteMac
+    have h2 := activate_lengths h K H sid hl serverMode .inbound n.remoteCipher n.remoteMac
+    exact ⟨h1.1, h1.2.1, h1.2.2, h2.1, h2.2.1, h2.2.2, rfl⟩
+  · have h1 := activate_rfc h K H sid hl serverMode .outbound n.localCipher n.localMac
+    have h2 := activate_lengths h K H sid hl serverMode .outbound n.localCipher n.localMac
+    exact ⟨h1.1, h1.2.1, h1.2.2, h2.1, h2.2.1, h2.2.2, rfl⟩
+
+/-- **Peers match with asymmetric negotiation.**  If the two peers agree per direction (what C05
+    proves: a client's `local_*` is the server's `remote_*` and vice versa) then client-out =
+    server-in and server-out = client-in — no relation between the two directions is needed. -/
+theorem peers_match_asymmetric (nc ns : Negotiated)
+    (h1 : nc.localCipher = ns.remoteCipher) (h2 : nc.localMac = ns.remoteMac)
+    (h3 : nc.remoteCipher = ns.localCipher) (h4 : nc.remoteMac = ns.localMac) :
+    activateDir h K H sid false .outbound nc = activateDir h K H sid true .inbound ns ∧
+    activateDir h K H sid true .outbound ns = activateDir h K H sid false .inbound nc := by
+  simp only [activateDir, h1, h2, h3, h4]
+  exact ⟨client_out_eq_server_in h K H sid _ _, server_out_eq_client_in h K H sid _ _⟩
+
 /-! ## the two directions never share a key -/
 
 /-- The hashed first-block messages for two different letters are different byte strings. -/
@@ -184,5 +222,16 @@ example : computeKey (toyHash 3) 1234567 [1, 2, 3] [9, 9] 65 10
 
 example : computeKey (toyHash 3) 1234567 [1, 2, 3] [9, 9] 65 10
     ≠ computeKey (toyHash 3) 1234567 [1, 2, 3] [9, 9] 66 10 := by decide +kernel
+
+/-- asymmetric negotiation (16-byte key / 16-byte IV one way, 32-byte key / 12-byte IV the other):
+    the inbound key of a client has the *remote* cipher's 32 bytes, not the local cipher's 16 -/
+example :
+    let a : CipherInfo := { name := "a", blockSize := 16, keySize := 16, ivSize := 16, aead := false }
+    let b : CipherInfo := { name := "b", blockSize := 16, keySize := 32, ivSize := 12, aead := true }
+    let m : MacInfo := { name := "m", digestSize := 20, size := 12 }
+    let n : Negotiated := { localCipher := a, remoteCipher := b, localMac := m, remoteMac := m }
+    (activateDir (toyHash 5) 77 [1] [2] false .inbound n).key.length = 32 ∧
+    (activateDir (toyHash 5) 77 [1] [2] false .inbound n).iv.length = 12 ∧
+    (activateDir (toyHash 5) 77 [1] [2] false .outbound n).key.length = 16 := by decide +kernel
 
 end PV.Props.C04
